@@ -48,6 +48,9 @@ CHECKS = {
  "C15": ("Differential testing against exhaustive enumeration: Hypothesis-generated hypergraphs built around overlapping maximal faces x min_size x exclude_min_size x normalize",
          "Exploration with a slower obviously-correct reference: for each generated hypergraph the harness enumerates every subset of every maximal edge and recomputes the edit distance (as a set of distinct missing node sets), the simplicial fraction and the mean face edit distance; range [0,1]-or-NaN and the value 1 on downward-closed inputs are checked. The generator is steered to the redundant-missing-face branch (two maximal faces sharing a missing face) and the evidence counts how often it is reached.",
          "Normalised edit distance compared with the implementation's documented normalisation; the un-normalised count is the independent statement.", "DESIGN.md#C15"),
+ "C16": ("Hypothesis-generated (generator, bounded parameter tuple, seed) cases with per-generator validity predicates; exhaustive comparison of the index-to-edge decodings with itertools",
+         "Exploration over bounded parameter grids and seeds for 21 generators with a validity predicate per generator (node set, allowed sizes, no repeated edges, p=0/p=1 extremes, counts, degree bounds, closure, exact clique sets), since many outputs are correct for one parameter tuple; the three skip-sampling decodings are enumerated exhaustively for n <= 7, m <= n and block triples <= 4.",
+         "Admissibility of parameters read off the docstrings (see evidence assumptions); statistical properties of the random models (edge probabilities) are not tested.", "DESIGN.md#C16"),
  "C05": ("Model-based testing: Hypothesis-generated histories applied step by step to xgi and to reference models transcribed from the docstrings (three classes), metamorphic relations for the degree-preserving moves",
          "Exploration by refinement checking against an executable specification: every op of a generated history is applied to the implementation and to the model (parametric in fresh IDs, prefix semantics for bulk calls) and the observable snapshots are compared after every step, including after rejected calls and their exception types.",
          "The models are my transcription of the documentation; inputs the documentation leaves contradictory are excluded by construction and counted (see assumptions in the evidence).", "DESIGN.md#C05"),
